@@ -414,3 +414,88 @@ def rule_NB1(ctx, files=None):
                              'of the function works on' % (p['name'], f.loc(j), dcl['name'], f.loc(i)))
     res.analysed.update({'normalised_copies': ncopy})
     return res, ncopy
+
+
+_ZERO_PRESERVING = {'sin', 'sinh', 'tan', 'tanh', 'atan', 'asin', 'asinh', 'atanh', 'sqrt', 'expm1', 'log1p', 'fabs',
+                    'abs', 'sq', 'cbrt'}
+
+
+def _roots(f, i):
+    """conditions under which the expression is exactly zero: ('z', d) = variable d is 0; ('d', a, b) = a equals b."""
+    n = f.nodes[f.strip_casts(i)]
+    k = n['k']
+    if k == 'DeclRefExpr' and n.get('rk') in ('param', 'local', 'var'):
+        return {('z', n['d'])}
+    if k == 'ParenExpr':
+        return _roots(f, n['ch'][0])
+    if k == 'UnaryOperator' and n.get('op') in ('-', '+'):
+        return _roots(f, n['ch'][0])
+    if k == 'BinaryOperator':
+        a, b = n['ch'][0], n['ch'][1]
+        if n.get('op') == '-':
+            x = f.nodes[f.strip_casts(a)]
+            y = f.nodes[f.strip_casts(b)]
+            if x['k'] == 'DeclRefExpr' and y['k'] == 'DeclRefExpr' and x.get('d') != y.get('d'):
+                return {('d',) + tuple(sorted((x['d'], y['d'])))}
+            return set()
+        if n.get('op') == '*':
+            return _roots(f, a) | _roots(f, b)
+        if n.get('op') == '/':
+            return _roots(f, a)
+    ce = n.get('callee')
+    if ce and n.get('args') and ce.get('name') in _ZERO_PRESERVING | {'atan2', 'atan2d'}:
+        return _roots(f, n['args'][0])
+    return set()
+
+
+def _root_guards(r):
+    if r[0] == 'z':
+        v = 'v:' + r[1]
+        return {('(0!=%s)' % v, True), ('(0==%s)' % v, False), ('(%s!=0)' % v, True), ('(%s==0)' % v, False),
+                ('(0<%s)' % v, True), ('(%s<0)' % v, True), ('(0<=%s)' % v, False), ('(%s<=0)' % v, False)}
+    a, b = 'v:' + r[1], 'v:' + r[2]
+    out = set()
+    for x, y in ((a, b), (b, a)):
+        out |= {('(%s==%s)' % (x, y), False), ('(%s!=%s)' % (x, y), True), ('(%s<%s)' % (x, y), True),
+                ('(%s<=%s)' % (x, y), False)}
+    return out
+
+
+def rule_ZQ1(ctx, files=None):
+    from ..flow import Flow
+    res = RuleResult('ZQ1', 'vanishing quotients stay guarded: where a function singles out x == y (or d == 0) as a special '
+                            'case, every quotient whose numerator and denominator both vanish in that case is evaluated only on '
+                            'paths that exclude it *after the last assignment* to the variables (a guard taken before '
+                            '`tx = 1/tx; ty = 1/ty` no longer protects `f(ty - tx) / g(ty - tx)`)')
+    nq = 0
+    seen = set()
+    for f in sorted(ctx.lib_fns(), key=lambda x: (x.file, x.line)):
+        if not _in(f, files) or f.d.get('body', -1) < 0 or not f.cfg:
+            continue
+        fl = None
+        for i, n in f.all_nodes():
+            if n['k'] != 'BinaryOperator' or n.get('op') != '/':
+                continue
+            common = _roots(f, n['ch'][0]) & _roots(f, n['ch'][1])
+            if not common or f.loc(i) in seen:
+                continue
+            fl = fl or Flow(f)
+            atoms = set(fl.mentions) | {l[0] for alts in fl.facts_in.values() for a in alts for l in a}
+            for r in sorted(common):
+                guards = _root_guards(r)
+                if not any(g[0] in atoms for g in guards if '==' in g[0] or '!=' in g[0]):
+                    continue       # the function never treats this coincidence as special: no belief to hold it to
+                seen.add(f.loc(i))
+                nq += 1
+                alts = fl.facts_at(i)
+                ok = all(any(g in a for g in guards) for a in alts)
+                names = [x.split('@')[0] for x in r[1:]]
+                res.ob(ok, {'fn': f.q, 'at': f.loc(i), 'vanishes_when': ('%s == 0' % names[0]) if r[0] == 'z' else
+                            '%s == %s' % tuple(names)})
+                if not ok:
+                    res.fail(f.q, '/'.join(names), f.loc(i),
+                             'numerator and denominator of the quotient at %s both vanish when %s; the function tests for that '
+                             'case, but not on every path after the last assignment to %s: 0/0 = NaN'
+                             % (f.loc(i), ('%s == 0' % names[0]) if r[0] == 'z' else '%s == %s' % tuple(names), ', '.join(names)))
+    res.analysed.update({'guarded_quotients': nq})
+    return res, nq
